@@ -209,7 +209,159 @@ func newCase(r *vh.Rng, gen string, seq *int) (*hcase, *builder) {
 	tod := r.Pick64([]int64{0, 1, 3600000, 43200000, 86399000, 86399999, 86340000, int64(r.Intn(int(dayMs)))})
 	c.T0 = baseTime + u*dayMs + tod
 	b := &builder{r: r, c: c, t: c.T0, seq: seq, interval: 10, keep: 7, lastLogT: c.T0}
+	b.pickClock()
 	return c, b
+}
+
+// pickClock chooses how the virtual time reaches the logger: directly as system time, or as
+// system time plus a server-sync delta (set with SetDelta, or derived by SetServerTime),
+// positive and negative, below and above a day, constant or changing during the history, and
+// chosen so that system time and adjusted time lie on different calendar days.
+func (b *builder) pickClock() {
+	r, c := b.r, b.c
+	tod := (c.T0 - baseTime) % dayMs
+	pool := []int64{1, -1, 999, -999, 3600000, -3600000, 43200000, -43200000, dayMs - 1, -(dayMs - 1), dayMs, -dayMs, dayMs + 1, -(dayMs + 1),
+		3 * dayMs, -3 * dayMs, 399 * dayMs, -399 * dayMs, 30*dayMs + 12345, -(30*dayMs + 12345),
+		tod + 1, -(dayMs - tod), tod + 1 + 3600000, -(dayMs - tod) - 3600000}
+	switch x := r.Intn(100); {
+	case x < 35:
+		c.Clock = "sync"
+		return
+	case x < 72:
+		c.Clock = "delta"
+	default:
+		c.Clock = "server"
+	}
+	n := 1
+	if r.Chance(40) {
+		n = 2 + r.Intn(3)
+	}
+	for i := 0; i < n; i++ {
+		c.Deltas = append(c.Deltas, r.Pick64(pool))
+	}
+}
+
+// many distinct ids: every id is logged, repeated at once (inside the interval) and again
+// later; n >= 400 crosses the growth steps of the id cache's hash table (76, 152, 304, 609
+// entries for capacity 101 and load factor 0.75), n > 1000 its eviction bound.
+func genManyIds(r *vh.Rng, seq *int, n int) *hcase {
+	c, b := newCase(r, "manyids", seq)
+	c.Level = 0
+	iv := 10
+	if r.Chance(40) {
+		iv = r.PickInt([]int{30, 60})
+		b.cfg(true, 7, iv, "debug")
+	}
+	type ent struct{ m, id, msg string }
+	ents := make([]ent, n)
+	salt := r.Intn(1000)
+	for k := 0; k < n; k++ {
+		m := r.PickStr([]string{"errorf", "warnf", "infof", "error", "warn", "printf", "println", "infoln"})
+		e := ent{m: m}
+		switch {
+		case m == "printf" || m == "println":
+			e.id = fmt.Sprintf("ID-%d-%d", salt, k)
+			if r.Chance(20) {
+				e.id = fmt.Sprintf("%d", k*7919+salt) // short numeric ids
+			}
+			e.msg = "explicit id"
+		default:
+			e.msg = fmt.Sprintf("k%03d%06d", salt, k) + r.PickStr([]string{"", " tail", " other tail of the message"})
+		}
+		ents[k] = e
+		b.log(e.m, e.id, e.msg)
+		b.adv(r.Pick64([]int64{0, 0, 1, 2}))
+		b.log(e.m, e.id, e.msg) // inside the interval: suppressed
+		b.adv(r.Pick64([]int64{0, 1, 3}))
+	}
+	// later: everything again, inside or beyond the interval
+	if r.Chance(50) {
+		b.adv(int64(iv)*1000 - (b.t - c.T0) - 1 - int64(r.Intn(500))) // still inside for every id
+	} else {
+		b.adv(int64(iv)*1000 + int64(r.Intn(3)) - 1) // at the boundary of the newest, beyond for the rest
+	}
+	for k := 0; k < n; k++ {
+		e := ents[k]
+		b.log(e.m, e.id, e.msg)
+		if r.Chance(30) {
+			b.log(e.m, e.id, e.msg)
+		}
+	}
+	b.adv(int64(iv) * 1000)
+	for k := 0; k < n; k += 1 + r.Intn(3) {
+		e := ents[k]
+		b.log(e.m, e.id, e.msg)
+		b.log(e.m, e.id, e.msg)
+	}
+	return c
+}
+
+// histories for the real clock (time.Now() + delta): every decision is at least several
+// seconds away from its boundary, so that the milliseconds that pass while the history runs
+// do not matter.
+func genReal(r *vh.Rng, seq *int) *hcase {
+	c, b := newCase(r, "realclock", seq)
+	c.Clock, c.Deltas = "real", nil
+	c.T0 = baseTime + unitOf(c.T0)*dayMs + r.Pick64([]int64{3600000, 43200000, 82800000})
+	b.t, b.lastLogT = c.T0, c.T0
+	b.seeds(r.Chance(50))
+	iv := 10
+	days := 1 + r.Intn(3)
+	logs := func(k int) {
+		for ; k > 0; k-- {
+			m := r.PickStr(methods)
+			id := ""
+			if m == "printf" || m == "println" {
+				id = r.PickStr(explicitIDs)
+			}
+			body := fmt.Sprintf("real clock message %d", r.Intn(50)) // same first 10 bytes: one id for the levelled calls
+			mark := func() string { *b.seq++; return fmt.Sprintf("%s #%d#", body, *b.seq) }
+			b.log(m, id, mark())
+			switch r.Intn(4) {
+			case 0:
+				b.log(m, id, mark()) // at once: suppressed when rate limited
+			case 1:
+				b.adv(int64(iv)*1000 + 5000)
+				b.log(m, id, mark())
+			case 2:
+				b.adv(int64(iv)*1000 - 5000)
+				b.log(m, id, mark())
+			}
+			b.adv(20000 * int64(iv) / 10)
+		}
+	}
+	for d := 0; d < days; d++ {
+		logs(r.Intn(4))
+		if r.Chance(35) {
+			iv = r.PickInt([]int{0, 10, 10, 60})
+			b.cfg(r.Chance(80), r.PickInt([]int{0, 1, 2, 7, 30}), iv, r.PickStr(levelStrs))
+			if iv <= 0 {
+				iv = 10
+			}
+		}
+		b.toMidnight(r.Pick64([]int64{3600000, 600000, 43200000}))
+		if r.Chance(20) {
+			b.adv(dayMs * int64(r.Intn(9)))
+		}
+		logs(r.Intn(3))
+		if r.Chance(90) {
+			b.proc()
+		}
+		logs(r.Intn(4))
+		switch r.Intn(3) {
+		case 0:
+			b.adv(30000)
+			b.proc()
+		case 1:
+			b.adv(120000)
+			b.proc()
+		}
+		if r.Chance(20) {
+			b.clr()
+		}
+		logs(r.Intn(2))
+	}
+	return c
 }
 
 func genMixed(r *vh.Rng, seq *int) *hcase {
